@@ -306,6 +306,14 @@ func (s *Sched) Step(lane string) (did bool, err error) {
 // captures (memtables, then level list).
 func (s *Sched) ArmScan(on bool) { s.scanArmed.Store(on) }
 
+// TryScan returns the parked ScanPrefix of the main database, if there is one.
+func (s *Sched) TryScan() *gate.Arrival {
+	if a, err := s.G.Await(s.isMain(PtScanBetween), 0); err == nil {
+		return a
+	}
+	return nil
+}
+
 // AwaitScan waits until a ScanPrefix of the main database is parked between its
 // captures, or until done is closed/receives (the scan's caller returned).
 // It returns nil, nil in the second case.
